@@ -566,7 +566,11 @@ def _to_shape_list(region_list, coordinate_system='fk5'):
         meta.update(region.visual)
 
         if reg_type == 'text':
-            meta.pop('label', None)
+            # a label that merely repeats the text (as set by the
+            # reader for a text region without label) is not written; a
+            # label of its own is
+            if meta.get('label') == region.text:
+                meta.pop('label')
             meta['text'] = region.text
 
         include = region.meta.get('include', True)
